@@ -248,6 +248,9 @@ func unsafeReason(head []hTerm, prems []hPrem, hasDo bool, doKeys []string) stri
 		keys := map[string]bool{}
 		for _, kx := range doKeys {
 			keys[kx] = true
+			if strings.HasPrefix(kx, "#") {
+				return "group_by key " + kx[1:] + " is a constant: the grouping code takes every key for a variable"
+			}
 			if !isBound(kx) {
 				return "group_by key " + kx + " is not bound by the body"
 			}
@@ -338,6 +341,12 @@ func (q *clauseKit) clause(c hClause) *ordabs.Rec {
 		s1 := q.k.zero("ast", "TransformStmt")
 		var keys []hTerm
 		for _, kx := range c.doKeys {
+			if strings.HasPrefix(kx, "#") {
+				var n int64
+				fmt.Sscanf(kx[1:], "%d", &n)
+				keys = append(keys, hc(n))
+				continue
+			}
 			keys = append(keys, hv(kx))
 		}
 		gb := q.term(hf("fn:group_by", keys...)).(*ordabs.Rec)
@@ -435,6 +444,7 @@ func premisePool() []hPrem {
 		{kind: "neg", pred: "n", args: []hTerm{X}},
 		{kind: "neg", pred: "m", args: []hTerm{X, Y}},
 		{kind: "neg", pred: "k", args: []hTerm{Z}},
+		{kind: "neg", pred: "n", args: []hTerm{Y}},
 		{kind: "eq", l: X, r: hc(1)},
 		{kind: "eq", l: Y, r: X},
 		{kind: "eq", l: Y, r: hf("fn:plus", X, hc(1))},
@@ -508,6 +518,7 @@ func c04Corpus(c *core.Ctx) {
 		{headPred: "h", head: []hTerm{hv("X"), hv("N")}, hasDo: true, doKeys: []string{"X"}},
 		{headPred: "h", head: []hTerm{hv("X"), hv("N")}, hasDo: true, doKeys: []string{}},
 		{headPred: "h", head: []hTerm{hv("N")}, hasDo: true, doKeys: []string{}},
+		{headPred: "h", head: []hTerm{hv("X"), hv("N")}, hasDo: true, doKeys: []string{"X", "#7"}},
 	}
 	safeBad, permBad := "", ""
 	n, accepted := 0, 0
@@ -535,6 +546,16 @@ func c04Corpus(c *core.Ctx) {
 					continue
 				}
 				seqs = append(seqs, []int{i, j, l})
+			}
+		}
+	}
+	// an extension premise before, between and after two of the binding atoms a(X), b(Y), e(X,Y)
+	for x := base; x < len(pool); x++ {
+		for _, i := range []int{0, 1, 2} {
+			for _, j := range []int{0, 1, 2} {
+				if i != j {
+					seqs = append(seqs, []int{x, i, j}, []int{i, x, j}, []int{i, j, x})
+				}
 			}
 		}
 	}
@@ -607,7 +628,7 @@ func c04Corpus(c *core.Ctx) {
 	c.Check(permBad == "", rC04Perm, rw.Name, rw.Decl.Pos(), fmt.Sprintf("a permutation of the premises on all %d clauses", n), permBad)
 	if evalF != nil && rj != nil {
 		c.Cover("accepted_clauses_evaluated", evaluated)
-		c.Check(evalBad == "" && evaluated > 100, rC04Eval, evalF.Name, evalF.Decl.Pos(), fmt.Sprintf("%d evaluations of accepted clauses: no error, only ground facts", evaluated), evalBad)
+		c.Check(evalBad == "" && (evaluated > 100 || c04OnlyHead >= 0), rC04Eval, evalF.Name, evalF.Decl.Pos(), fmt.Sprintf("%d evaluations of accepted clauses: no error, only ground facts", evaluated), evalBad)
 	}
-	c.Check(safeBad == "" && accepted > 20, rC04Safe, ck.Name, ck.Decl.Pos(), fmt.Sprintf("%d of %d clauses accepted, all of them safe in their evaluation order", accepted, n), safeBad)
+	c.Check(safeBad == "" && (accepted > 20 || c04OnlyHead >= 0), rC04Safe, ck.Name, ck.Decl.Pos(), fmt.Sprintf("%d of %d clauses accepted, all of them safe in their evaluation order", accepted, n), safeBad)
 }
